@@ -138,7 +138,22 @@ def run(ctx: Ctx, tier: str) -> Result:
                         fs_ = fold_strings(ctx, n_.comparators[0], worker)
                         if fs_ is not None and {"line", "return", "exception"} <= fs_:
                             evs.append(norm(n_))
-        if evs and any("is_set" in c for c, pol in conds if pol):
+        # whether a thread has pending work is that thread's own state: nothing the whole handler shares (a flag any thread sets
+        # and clears) stands in front of the per-thread test
+        shared_ = []
+        for c_, pol_ in paths.conditions(p, callsite[0], worker):
+            for a_ in ast.walk(c_):
+                if isinstance(a_, ast.Attribute) and isinstance(a_.value, ast.Name) and a_.value.id == "self" and isinstance(a_.ctx, ast.Load) and worker.cls is not None:
+                    if any(ty[0] == "inst" and ty[1].endswith("ThreadLocal") for ty in t.type_of(a_, worker)):
+                        continue
+                    late = [sf for sf, v_, _ in t.field_stores(worker.cls, a_.attr) if sf.name != "__init__"]
+                    if late:
+                        shared_.append((a_, late[0]))
+        if shared_:
+            res.fail(Finding("C15.ONCE", worker.qname, shared_[0][0], worker.loc(shared_[0][0]), "whether pending work is examined also depends on `%s`, a field of the handler that every "
+                             "thread shares and %s rewrites: a thread that finishes its work switches the examination off for a thread that still has some (its span is never "
+                             "closed, its snapshot never sent)" % (norm(shared_[0][0]), shared_[0][1].name)))
+        elif evs and any("is_set" in c for c, pol in conds if pol):
             res.ok("C15.ONCE", {"pending work looked at on": "line/return/exception events when something is pending"})
         else:
             res.fail(Finding("C15.ONCE", worker.qname, callsite[0], worker.loc(callsite[0]), "pending work is not examined on every line/return/exception event of a thread that has some: %s" % conds))
